@@ -1,7 +1,8 @@
 //! C08 -- block store kernel, one inductive step per operation, decided by Kani on the REAL
 //! /repo/node/libs/engine/src/block_store.rs (compiled into this crate with `#[path]`; the file is
 //! crate-private in `zksync_consensus_engine`). Blocks are real `validator::Block` values
-//! (`Block::PreGenesis`, empty justification, a one-byte symbolic payload as identity tag).
+//! (`Block::PreGenesis`, empty justification, a one-byte symbolic payload as identity tag --
+//! except in the `update_persisted` harnesses, see `blk`).
 //!
 //! Representation invariant I of `BlockStore` (queued = [qf, qn), persisted = [pf, pn),
 //! cache = VecDeque of blocks, len = cache.len()):
@@ -9,6 +10,8 @@
 //!   (e) len <= qn and cache[i].number == qn - len + i     (contiguous, ends at queued.last)
 //!   (f) qn - len <= pn      (everything queued but not cached is already persisted; for an
 //!                            empty cache this says qn == pn)
+//!   (g) queued.last == None  =>  cache is empty   (`last` becomes `Some` on the first push and
+//!                            goes back to `None` only together with `cache.clear()`)
 //! `last` is `None` only if first == next; `Some(l)` means next == l + 1 (both representations
 //! of an empty range, `None` and `Some(first-1)`, are generated: the second one arises in the
 //! real code when pruning moves `first` past the queue, see `update_persisted`).
@@ -37,18 +40,22 @@ mod proofs {
 
     const MAX: u64 = u64::MAX - 4;
 
-    fn blk(n: u64, tag: u8) -> Block {
+    /// `tagged`: the payload is one symbolic byte (identity of the block beyond its number);
+    /// untagged blocks have an empty payload, i.e. no heap allocation at all -- used by the
+    /// `update_persisted` harnesses, where dropping the cache (`cache.clear()`) with heap-owning
+    /// blocks costs CBMC > 12 GB already at cache length 1 (measured).
+    fn blk(n: u64, tag: u8, tagged: bool) -> Block {
         Block::PreGenesis(PreGenesisBlock {
             number: BlockNumber(n),
-            payload: Payload(vec![tag]),
+            payload: Payload(if tagged { vec![tag] } else { vec![] }),
             justification: Justification(vec![]),
         })
     }
 
-    /// (number, identity tag) of a block built by `blk`.
+    /// (number, identity tag) of a block built by `blk` (tag 0 if untagged).
     fn sig(b: &Block) -> (u64, u8) {
         match b {
-            Block::PreGenesis(b) => (b.number.0, b.payload.0[0]),
+            Block::PreGenesis(b) => (b.number.0, if b.payload.0.is_empty() { 0 } else { b.payload.0[0] }),
             _ => {
                 assert!(false, "only pre-genesis blocks are generated");
                 (0, 0)
@@ -107,18 +114,19 @@ mod proofs {
                 /// Generated from c0 = number of the first cached block (= qn - LEN): every store
                 /// satisfying I with this cache length is of this form, and block numbers stay
                 /// syntactically `c0 + constant` (needed by `block_lookup`, see there).
-                pub fn any_store<const LEN: usize>() -> BlockStore {
+                pub fn any_store<const LEN: usize>(tagged: bool) -> BlockStore {
                     let c0: u64 = kani::any();
                     kani::assume(c0 < MAX - LEN as u64);
                     let qn = c0 + LEN as u64;
                     let (qf, pf, pn): (u64, u64, u64) = (kani::any(), kani::any(), kani::any());
                     kani::assume(pf <= pn && qf <= qn && pn <= qn && pf <= qf && c0 <= pn);
-                    let queued = state(qf, qn, kani::any());
+                    // (g): the `None` representation of an empty queue only with an empty cache
+                    let queued = state(qf, qn, LEN == 0 && kani::any());
                     let persisted = state(pf, pn, kani::any());
                     let mut cache = VecDeque::new();
                     let mut i = 0;
                     while i < LEN {
-                        cache.push_back(blk(c0 + i as u64, kani::any()));
+                        cache.push_back(blk(c0 + i as u64, kani::any(), tagged));
                         i += 1;
                     }
                     BlockStore { queued, persisted, cache }
@@ -132,6 +140,9 @@ mod proofs {
                     }
                     let n = s.cache.len() as u64;
                     if n > qn {
+                        return false;
+                    }
+                    if n > 0 && last_num(&s.queued.last).is_none() {
                         return false;
                     }
                     let c0 = qn - n;
@@ -173,13 +184,13 @@ mod proofs {
                 /// existing entries and `persisted` never change.
                 /// `L1` = LEN + 1 (snapshot room). `cap`: CACHE_CAPACITY of the module.
                 pub fn try_push_step<const LEN: usize, const L1: usize>(cap: usize) {
-                    let mut s = any_store::<LEN>();
+                    let mut s = any_store::<LEN>(true);
                     assert!(inv(&s));
                     let old: Snap<L1> = snap(&s);
                     let n: u64 = kani::any();
                     let tag: u8 = kani::any();
                     kani::assume(n < MAX);
-                    let pushed = s.try_push(blk(n, tag));
+                    let pushed = s.try_push(blk(n, tag, true));
                     let new: Snap<L1> = snap(&s);
                     assert!(pushed == (n == old.qn));
                     if !pushed {
@@ -213,7 +224,7 @@ mod proofs {
                 /// back end reporting a range can produce; manager.rs passes the value of the
                 /// `EngineInterface::persisted()` watch unchecked).
                 pub fn update_persisted_step<const LEN: usize>(cap: usize) {
-                    let mut s = any_store::<LEN>();
+                    let mut s = any_store::<LEN>(false);
                     assert!(inv(&s));
                     let old: Snap<LEN> = snap(&s);
                     let newp = any_state();
@@ -229,8 +240,14 @@ mod proofs {
                         assert!(new.pn >= old.pn);
                         let reset = nn > old.qn;
                         if reset {
-                            // persistence overtook the queue: queue := persisted, cache dropped
-                            assert!(new.qf == nf && new.qn == nn && new.q_some == n_some);
+                            // persistence overtook the queue: queue := persisted, cache dropped.
+                            // (The real code tests `queued.next() < persisted.next()` AFTER advancing
+                            // queued.first; for an empty queue represented with last = None and a new
+                            // EMPTY persisted range starting above it the clone is skipped and the
+                            // same range [nf, nf) is left as (nf, None) instead of (nf, Some(nf-1)):
+                            // equal as ranges, so only the range and the cache are compared there.)
+                            assert!(new.qf == nf && new.qn == nn);
+                            assert!(new.q_some == n_some || (nf == nn && !new.q_some && !old.q_some));
                             assert!(new.len == 0);
                         } else {
                             assert!(new.qn == old.qn && new.q_some == old.q_some);
@@ -250,7 +267,8 @@ mod proofs {
                     assert!(inv(&s));
                     kani::cover!(r.is_ok() && nn > old.qn, "reset path");
                     kani::cover!(r.is_ok() && nn == old.qn, "caught up exactly, no reset");
-                    kani::cover!(r.is_ok() && nn < old.qn && nf > old.qf, "pruning");
+                    kani::cover!(LEN == 0 || r.is_ok() && nn < old.qn && nf > old.qf, "pruning");
+                    kani::cover!(LEN > 0 || r.is_ok() && nn > old.qn && new.q_some != n_some, "reset skipped for an empty None queue");
                     kani::cover!(r.is_err());
                     std::mem::forget(r);
                     std::mem::forget(s);
@@ -259,7 +277,7 @@ mod proofs {
                 /// truncate_cache: evicts exactly min(len - CAPACITY, #persisted entries at the
                 /// front) entries from the front and touches nothing else.
                 pub fn truncate_cache_step<const LEN: usize>(cap: usize) {
-                    let mut s = any_store::<LEN>();
+                    let mut s = any_store::<LEN>(true);
                     assert!(inv(&s));
                     let old: Snap<LEN> = snap(&s);
                     s.truncate_cache();
@@ -282,73 +300,58 @@ mod proofs {
                     std::mem::forget(s);
                 }
 
-                /// block(n), the read path of `EngineManager::get_block`, and the persister's
-                /// selection `block(max(queue_next, persisted.next))`.
-                ///
-                /// `block(n)` dereferences `cache[n - cache[0].number]`. With a symbolic index CBMC
-                /// reads a `Block` at a symbolic offset of the ring buffer, loses the enum variant
-                /// and explores `FinalV2`/BLS clones with unconstrained sizes (> 10 GB, measured).
-                /// So the lookup itself is exercised at n = c0 + k for every CONCRETE offset
-                /// k in -2..=LEN+1 and two far offsets (c0 symbolic), and the statement for every
-                /// symbolic n is closed by pure arithmetic on the state: `block` depends on n only
-                /// through `n.checked_sub(c0)`.
+                /// block(n) for EVERY n, and the read path of `EngineManager::get_block`
+                /// (`queued.contains(n)`, then `block(n)`, else storage).
+                /// One call of `block` per harness: each costs CBMC ~3 GB (the returned
+                /// `Option<Block>` is a large tagged union moved by value).
                 pub fn block_lookup<const LEN: usize>() {
-                    let s = any_store::<LEN>();
+                    let s = any_store::<LEN>(true);
                     assert!(inv(&s));
                     let old: Snap<LEN> = snap(&s);
                     let c0 = old.qn - LEN as u64;
-                    // (1) arithmetic, n symbolic: available and below the cache => persisted;
-                    //     available and not below the cache => the index is inside the cache.
                     let n: u64 = kani::any();
+                    let b = s.block(BlockNumber(n));
+                    // in the cache iff c0 <= n < qn, and then it is THE cached block with that number
+                    match &b {
+                        Some(b) => {
+                            assert!(c0 <= n && n < old.qn);
+                            assert!(sig(b).0 == n);
+                            assert!(sig(b) == old.cache[(n - c0) as usize]);
+                        }
+                        None => assert!(n < c0 || n >= old.qn),
+                    }
+                    // available => in cache or readable from storage
                     if s.queued.contains(BlockNumber(n)) {
-                        assert!(n < old.qn);
-                        if n < c0 {
-                            assert!(s.persisted.contains(BlockNumber(n)) && n < old.pn);
-                        } else {
-                            assert!(n - c0 < LEN as u64);
-                        }
+                        assert!(b.is_some() || s.persisted.contains(BlockNumber(n)));
+                        assert!(b.is_some() || n < old.pn);
                     }
-                    kani::cover!(s.queued.contains(BlockNumber(n)) && n < c0);
-                    kani::cover!(s.queued.contains(BlockNumber(n)) && n >= c0);
-                    //     persister: m = max(queue_next, persisted.next) is never below the cache,
-                    //     and is inside it iff m < queued.next
+                    kani::cover!(s.queued.contains(BlockNumber(n)) && b.is_none());
+                    kani::cover!(LEN == 0 || s.queued.contains(BlockNumber(n)) && b.is_some());
+                    kani::cover!(LEN == 0 || !s.queued.contains(BlockNumber(n)) && b.is_some(),
+                        "cached but pruned from the queued range");
+                    std::mem::forget(b);
+                    std::mem::forget(s);
+                }
+
+                /// The persister task's selection `block(max(queue_next, persisted.next))` for every
+                /// `queue_next`: it is the block numbered exactly m = max(..) (the successor of the
+                /// last handed-out block, or the durable head if persistence jumped ahead), present
+                /// iff m < queued.next; never a block below persisted.next.
+                pub fn persister_selection<const LEN: usize>() {
+                    let s = any_store::<LEN>(true);
+                    assert!(inv(&s));
+                    let old: Snap<LEN> = snap(&s);
                     let queue_next: u64 = kani::any();
-                    let m = BlockNumber(queue_next).max(s.persisted.next()).0;
-                    assert!(m >= c0 && m >= old.pn && m >= queue_next);
-                    assert!((m < old.qn) == (m - c0 < LEN as u64));
-                    kani::cover!(m < old.qn && queue_next > old.pn);
-                    // (2) the lookup at every concrete offset from c0
-                    let mut k = 0usize;
-                    while k < LEN + 2 {
-                        let b = s.block(BlockNumber(c0 + k as u64));
-                        if k < LEN {
-                            match &b {
-                                Some(b) => {
-                                    assert!(sig(b) == old.cache[k]);
-                                    assert!(sig(b).0 == c0 + k as u64);
-                                }
-                                None => assert!(false, "cached block not found"),
-                            }
-                        } else {
-                            assert!(b.is_none());
-                        }
-                        std::mem::forget(b);
-                        k += 1;
+                    let m = if queue_next > old.pn { queue_next } else { old.pn };
+                    let nb = s.block(BlockNumber(queue_next).max(s.persisted.next()));
+                    match &nb {
+                        Some(nb) => assert!(sig(nb).0 == m && m < old.qn && m >= old.pn),
+                        None => assert!(m >= old.qn),
                     }
-                    let far = s.block(BlockNumber(c0 + (1u64 << 40)));
-                    assert!(far.is_none());
-                    std::mem::forget(far);
-                    if c0 >= 2 {
-                        let b1 = s.block(BlockNumber(c0 - 1));
-                        let b2 = s.block(BlockNumber(c0 - 2));
-                        assert!(b1.is_none() && b2.is_none());
-                        std::mem::forget(b1);
-                        std::mem::forget(b2);
-                        kani::cover!(s.queued.contains(BlockNumber(c0 - 1)), "queued, evicted, persisted");
-                    }
-                    let z = s.block(BlockNumber(0));
-                    assert!(z.is_some() == (c0 == 0 && LEN > 0));
-                    std::mem::forget(z);
+                    kani::cover!(LEN < 2 || nb.is_some() && queue_next > old.pn);
+                    kani::cover!(LEN == 0 || nb.is_some() && queue_next < old.pn);
+                    kani::cover!(nb.is_none());
+                    std::mem::forget(nb);
                     std::mem::forget(s);
                 }
             }
@@ -388,6 +391,9 @@ mod proofs {
     h!(block_lookup_len1, 6, real::block_lookup::<1>());
     h!(block_lookup_len2, 6, real::block_lookup::<2>());
     h!(block_lookup_len3, 6, real::block_lookup::<3>());
+    h!(persister_selection_len0, 6, real::persister_selection::<0>());
+    h!(persister_selection_len1, 6, real::persister_selection::<1>());
+    h!(persister_selection_len2, 6, real::persister_selection::<2>());
 
     // ---- derived copy, CACHE_CAPACITY = 2: eviction boundary ----
     h!(truncate_cache_cap2_len2, 6, cap2::truncate_cache_step::<2>(CAP2));
@@ -405,29 +411,5 @@ mod proofs {
         assert!(CAP == 100);
         assert!(CAP2 == 2);
         kani::cover!(CAP > CAP2);
-    }
-
-    #[kani::proof]
-    #[kani::unwind(6)]
-    fn exp_e3() {
-        let s = real::any_store::<1>();
-        let c0 = s.queued.next().0 - 1;
-        let b = s.block(BlockNumber(c0));
-        assert!(b.is_some());
-        std::mem::forget(b); std::mem::forget(s);
-    }
-    #[kani::proof]
-    #[kani::unwind(6)]
-    fn exp_e1() {
-        use crate::block_store::*;
-        let mut cache = VecDeque::new();
-        cache.push_back(blk(5, kani::any()));
-        let pn: u64 = kani::any(); kani::assume(pn >= 5 && pn <= 6);
-        let s = BlockStore { queued: real::state(kani::any(), 6, false), persisted: real::state(kani::any(), pn, false), cache };
-        let b = s.block(BlockNumber(5));
-        assert!(b.is_some());
-        let b2 = s.block(BlockNumber(6));
-        assert!(b2.is_none());
-        std::mem::forget(b); std::mem::forget(b2); std::mem::forget(s);
     }
 }
